@@ -150,6 +150,18 @@ CLAIMED['C16'] = dict(
     technique='TLA+ spec (RandomStreams.tla) model-checked with TLC; code->spec trace validation (Trace_RandomStreams.tla) of '
               'recorded generator events; equality-pattern replay with real generators',
     design='6/C16')
+CLAIMED['C06'] = dict(
+    engine='SampleAlgebra',
+    text='Distributional statement turned into exact algebra: each sampler (4 error models, Gaussian / log-normal centred and '
+         'not, truncated Gaussian, pooled, composed, reduced, covariate population models) is run under scripted recording '
+         'generators that identify, cell by cell, the affine or log-affine form over its primitive normal atoms (or the '
+         'truncated-normal atom / constant it returns). TLC evaluates SampleAlgebra on every recorded call: derived law '
+         '(mean, sum of squared integer coefficients, truncation point) = law the documented density claims; independence '
+         'as disjoint atom supports. Design-level controls of the algebra are part of every run.',
+    note='primitives of NumPy / SciPy trusted; integer inputs (units 1/2); no statistical test; moments helpers compared '
+         'numerically with scipy.stats; heterogeneous sampler (row choice) judged structurally by C16 only',
+    technique='code->spec: recorded sampler calls checked by TLC against a TLA+ algebra of laws (SampleAlgebra.tla)',
+    design='6/C06')
 
 NOT_YET = {
 }
